@@ -196,9 +196,18 @@ def build(v, env, ghost_fn):
             tag = v['$opaque']
             if 'rng' in tag or 'Random' in tag:
                 return ScriptedRandom(ghost_fn('draw'))
+            if 'FpyCtx' in tag:
+                # the ambient context of an FPy-dialect contract: a concrete stand-in chosen by replay()
+                env['__used_ctx__'] = True
+                return env.get('__ctx__')
             return None
         if '$obj' in v:
             cls = _cls(v['$obj'])
+            import inspect as _inspect
+            if _inspect.isabstract(cls) and cls.__name__ == 'Context':
+                # an ARBITRARY rounding context (C20): a concrete stand-in chosen by replay()
+                env['__used_ctx__'] = True
+                return env.get('__ctx__')
             obj = cls.__new__(cls)
             if 'id' in v:
                 env[v['id']] = obj
@@ -261,7 +270,37 @@ def show(v, depth=0):
         return f'<{type(v).__name__} (repr failed: {e})>'
 
 
+def candidate_contexts(doc, C):
+    """concrete contexts tried in place of an arbitrary / ambient context"""
+    import fpy2 as fp
+    opts = getattr(C, 'options', {}) or {}
+    if opts.get('fpy_rnd') == 'rne':
+        return [fp.MPFloatContext(int(doc['args']['p']), fp.RM.RNE)]
+    return [fp.REAL, fp.FP64, fp.MPFloatContext(2, fp.RM.RNE), fp.MPFloatContext(3, fp.RM.RNE), fp.MPFloatContext(3, fp.RM.RTZ),
+            fp.MPFloatContext(5, fp.RM.RTP), fp.FP32, fp.INTEGER, fp.S1E4M3, fp.MPFixedContext(-3, fp.RM.RNE)]
+
+
 def replay(doc, ghost_override=None):
+    """replay once; when the inputs contain an arbitrary context, once per concrete stand-in (first violation wins)"""
+    out, code = replay_with(doc, None, ghost_override)
+    if not out.get('abstract_ctx'):
+        return out, code
+    cmod = importlib.import_module(doc['contract_module'])
+    first = None
+    for cand in candidate_contexts(doc, getattr(cmod, doc['contract'])):
+        try:
+            out, code = replay_with(doc, cand, ghost_override)
+        except Exception as e:
+            out, code = {'verdict': 'harness-error', 'error': f'{type(e).__name__}: {e}', 'ctx': repr(cand)}, 3
+        out['ctx'] = repr(cand)
+        if code == 1:
+            return out, code
+        if first is None or (first[1] == 3 and code == 0):
+            first = (out, code)
+    return first
+
+
+def replay_with(doc, ctx_standin, ghost_override=None):
     import speclib
     ghost_fn = make_ghost(doc.get('ghost'))
     speclib.GHOST.clear()
@@ -273,7 +312,7 @@ def replay(doc, ghost_override=None):
         ghost_fn = lambda name: ghost_override
     cmod = importlib.import_module(doc['contract_module'])
     C = getattr(cmod, doc['contract'])
-    env = {}
+    env = {'__ctx__': ctx_standin}
     global _KB
     _KB = KeyBuilder(doc)
     pending = dict(doc['args'])
@@ -296,6 +335,10 @@ def replay(doc, ghost_override=None):
         speclib.GHOST.update(c15_ref.GHOSTS)
         speclib.KEY_UNIVERSE[:] = _KB.all_keys() + [NamedId('zz_unused_a'), NamedId('zz_unused_b')]
     out = {'contract': doc['contract'], 'obligation': doc.get('obligation'), 'inputs': {k: show(v) for k, v in args.items()}}
+    if env.get('__used_ctx__') and ctx_standin is None:
+        out['abstract_ctx'] = True
+        out['verdict'] = 'needs-context'
+        return out, 0
 
     def spec(fname, extra=None):
         fn = C.__dict__.get(fname)
@@ -348,7 +391,24 @@ def replay(doc, ghost_override=None):
     try:
         if len(parts) == 1:
             fn = getattr(m, parts[0])
-            res = fn(**args)
+            kind = type(fn).__name__
+            if kind == 'Primitive':
+                # @fpy_primitive: the decorated Python function itself
+                res = fn.func(**args)
+            elif kind == 'Function':
+                # @fpy: positional operands (assembled from (m, e) pairs for bounded contracts), ambient context by keyword
+                pairs = (getattr(C, 'options', {}) or {}).get('fpy_operands') or {}
+                pos = []
+                for a in fn.args:
+                    nm = str(a.name)
+                    if nm in args:
+                        pos.append(args[nm])
+                    else:
+                        mm, ee = pairs[nm]
+                        pos.append(Fraction(args[mm]) * Fraction(2) ** args[ee])
+                res = fn(*pos, ctx=args['ctx'])
+            else:
+                res = fn(**args)
         else:
             cls = getattr(m, parts[0])
             raw = cls.__dict__.get(parts[1])
